@@ -2,6 +2,9 @@ package chainsim
 
 import (
 	"fmt"
+	"math/big"
+
+	sdk "github.com/cosmos/cosmos-sdk/types"
 
 	dtypes "github.com/ovrclk/akash/x/deployment/types"
 	mtypes "github.com/ovrclk/akash/x/market/types"
@@ -45,8 +48,8 @@ func (cs *checkerSet) c04State(w *World, s *Snap, why string) *core.Violation {
 			return r.Flag("C04/lease-without-bid", "%s: lease %s has no bid record", why, k)
 		}
 		if o, ho := s.Orders[ok]; ho {
-			if o.Price().Denom != l.Price.Denom || o.Price().Amount.LT(l.Price.Amount) {
-				return r.Flag("C04/lease-price-gt-order-max", "%s: lease %s price %s exceeds order maximum %s", why, k, l.Price, o.Price())
+			if max := orderMaxPrice(o.Spec); max.Denom != l.Price.Denom || max.Amount.LT(l.Price.Amount) {
+				return r.Flag("C04/lease-price-gt-order-max", "%s: lease %s price %s exceeds order maximum %s", why, k, l.Price, max)
 			}
 		} else {
 			return r.Flag("C04/lease-without-order", "%s: lease %s has no order record", why, k)
@@ -158,4 +161,18 @@ func (cs *checkerSet) c04Tx(c *TxCtx) *core.Violation {
 		}
 	}
 	return cs.c04State(c.W, c.After, fmt.Sprintf("after %s", c.Op.Kind))
+}
+
+// orderMaxPrice is the order's maximum price computed independently of GroupSpec.Price(): the sum over
+// the resource entries of unit price times replica count (what the tenant offered).
+func orderMaxPrice(gs dtypes.GroupSpec) sdk.Coin {
+	total := new(big.Int)
+	denom := ""
+	for i, res := range gs.Resources {
+		if i == 0 {
+			denom = res.Price.Denom
+		}
+		total.Add(total, new(big.Int).Mul(res.Price.Amount.BigInt(), new(big.Int).SetUint64(uint64(res.Count))))
+	}
+	return sdk.Coin{Denom: denom, Amount: sdk.NewIntFromBigInt(total)}
 }
